@@ -12,8 +12,15 @@ package main
 //             checkpoints, messages read by a fresh reader resumed from a popped checkpoint.
 //             Seek source: the model predicts the emissions; decompressors: the observed
 //             emissions are replayed in the model.
-// Oracle-only cases (group ""): every size class up to 4 MiB+1, every registered codec,
-// checkpoints popped at every boundary, gob round trip, fresh reader, remaining messages.
+// Oracle-only cases (group ""): every size class up to 4 MiB+1 and beyond (4 MiB+64 KiB .. 16 MiB+1,
+// thorough 64 MiB+1), every registered codec, checkpoints popped at every boundary, gob round
+// trip, fresh reader, remaining messages.
+//
+// Caller behaviour is part of the input: the way the caller hands a message struct to
+// ReadMessage (a new one per read, ONE struct reused for every read - what every reader of
+// wharf does - or a struct that still holds other values) and to WriteMessage (a struct and a
+// data buffer per message, or one struct and one buffer refilled for every write and scribbled
+// over afterwards - what pwr's diff does with its data ops).
 
 import (
 	"bytes"
@@ -45,6 +52,57 @@ var c13Small = []int{0, 2, 3, 127, 128, 129, 130, 16383, 16384, 16385}
 var c13Mid = []int{32767, 32768, 32769, 65535, 65536, 65537}
 var c13Big = []int{1 << 20, 4<<20 + 1}
 
+// "> 4 MiB" is open ended: a full data op plus more than any envelope, the next growth
+// steps of the reusable buffer (8 MiB, 16 MiB) and, thorough only, 32 MiB+1 and 64 MiB+1
+var c13Huge = []int{4<<20 + 64<<10 + 1, 6 << 20, 8<<20 - 1, 8 << 20, 8<<20 + 1, 16<<20 + 1}
+var c13HugeDeep = []int{32<<20 + 1, 64<<20 + 1}
+
+// ---------- how the caller holds its message structs ----------
+
+const (
+	c13Fresh = iota // a new struct for every read (what the repo's tests do)
+	c13Reuse        // one struct for every read (what every reader of wharf does)
+	c13Dirty        // a struct that still holds unrelated values in every field
+)
+
+var c13ModeName = []string{"fresh", "reuse", "dirty"}
+
+// modes in the proportion they are drawn: reuse is the common case in wharf
+var c13ModeMix = []int{c13Reuse, c13Dirty, c13Fresh, c13Reuse}
+
+type c13Target struct {
+	mode int
+	m    *wire.Sample
+	n    int
+}
+
+// next returns the struct the next ReadMessage is given
+func (t *c13Target) next() *wire.Sample {
+	t.n++
+	switch t.mode {
+	case c13Reuse:
+		if t.m == nil {
+			t.m = &wire.Sample{}
+		}
+		return t.m
+	case c13Dirty:
+		return &wire.Sample{Data: []byte{0xde, 0xad, byte(t.n)}, Number: int64(-t.n), Eof: t.n%3 != 0}
+	}
+	return &wire.Sample{}
+}
+
+// keep returns what ReadMessage left in m, detached from m (the next read may overwrite it)
+func (t *c13Target) keep(m *wire.Sample) *wire.Sample {
+	if t.mode != c13Reuse {
+		return m
+	}
+	c := &wire.Sample{Number: m.Number, Eof: m.Eof}
+	if m.Data != nil {
+		c.Data = append(make([]byte, 0, len(m.Data)), m.Data...)
+	}
+	return c
+}
+
 // codecs: the shared list plus the remaining registered qualities
 func c13Codecs(thorough bool) []lib.Compression {
 	out := append([]lib.Compression(nil), lib.Compressions...)
@@ -58,7 +116,16 @@ func c13Codecs(thorough bool) []lib.Compression {
 	} else {
 		out = append(out, lib.Compression{Algo: pwr.CompressionAlgorithm_GZIP, Quality: 0}, lib.Compression{Algo: pwr.CompressionAlgorithm_BROTLI, Quality: 0})
 	}
-	return out
+	// the shared list has grown to contain some of these
+	seen := map[lib.Compression]bool{}
+	uniq := out[:0]
+	for _, c := range out {
+		if !seen[c] {
+			seen[c] = true
+			uniq = append(uniq, c)
+		}
+	}
+	return uniq
 }
 
 // the search tier (run after a model/implementation disagreement) uses quick-sized cases,
@@ -189,6 +256,16 @@ func c13Body(m *wire.Sample) ([]byte, error) {
 	return buf.Bytes()[k:], nil
 }
 
+// c13Diff words a difference for the replay file
+func c13Diff(got, want *wire.Sample) string {
+	d := "same data"
+	if !bytes.Equal(got.Data, want.Data) {
+		d = "data differs"
+	}
+	return fmt.Sprintf("read {data %d bytes, number %d, eof %v}, written {data %d bytes, number %d, eof %v}, %s",
+		len(got.Data), got.Number, got.Eof, len(want.Data), want.Number, want.Eof, d)
+}
+
 func c13Equal(a, b *wire.Sample) bool {
 	return bytes.Equal(a.Data, b.Data) && a.Number == b.Number && a.Eof == b.Eof
 }
@@ -203,8 +280,39 @@ type c13Stream struct {
 	raw    []byte   // magic + header + (compressed) section
 }
 
-func c13Build(comp lib.Compression, msgs []*wire.Sample) (*c13Stream, error) {
+// c13Pen hands messages to WriteMessage. reuse: one struct and one data buffer are refilled
+// for every message and overwritten as soon as WriteMessage has returned (the writer must
+// have taken what it needs by then; pwr's diff reuses its data-op buffer this way).
+type c13Pen struct {
+	reuse   bool
+	m       *wire.Sample
+	scratch []byte
+}
+
+func (p *c13Pen) write(w *wire.WriteContext, m *wire.Sample) error {
+	if !p.reuse {
+		return w.WriteMessage(m)
+	}
+	if p.m == nil {
+		p.m = &wire.Sample{}
+	}
+	p.scratch = append(p.scratch[:0], m.Data...)
+	p.m.Data = nil
+	if m.Data != nil {
+		p.m.Data = p.scratch
+	}
+	p.m.Number, p.m.Eof = m.Number, m.Eof
+	err := w.WriteMessage(p.m)
+	for i := range p.scratch {
+		p.scratch[i] ^= 0xa5
+	}
+	p.m.Number, p.m.Eof = ^p.m.Number, !p.m.Eof
+	return err
+}
+
+func c13Build(comp lib.Compression, msgs []*wire.Sample, penReuse bool) (*c13Stream, error) {
 	st := &c13Stream{comp: comp, msgs: msgs, bounds: []int64{0}}
+	pen := &c13Pen{reuse: penReuse}
 	for _, m := range msgs {
 		b, err := c13Body(m)
 		if err != nil {
@@ -226,9 +334,9 @@ func c13Build(comp lib.Compression, msgs []*wire.Sample) (*c13Stream, error) {
 		if err != nil {
 			return err
 		}
-		for _, m := range msgs {
-			if err := w.WriteMessage(m); err != nil {
-				return err
+		for i, m := range msgs {
+			if err := pen.write(w, m); err != nil {
+				return fmt.Errorf("message %d (body of %d bytes): %v", i, len(st.bodies[i]), err)
 			}
 		}
 		return w.Close()
@@ -322,6 +430,7 @@ type c13Ev struct {
 	cap    int
 	save   int
 	scOff  int64
+	detail string // text of a failed read, for the replay only
 }
 
 // schedule kinds
@@ -371,9 +480,10 @@ func c13Ops(r *lib.Rng, n int, sched string) []byte {
 }
 
 // c13Run drives a reader through ops; a panic or hang-free error ends the run.
-func c13Run(rc *wire.ReadContext, ops []byte, k0 int) []c13Ev {
+func c13Run(rc *wire.ReadContext, ops []byte, k0 int, mode int) []c13Ev {
 	var evs []c13Ev
 	k := k0
+	tg := &c13Target{mode: mode}
 	for _, op := range ops {
 		ev := c13Ev{op: op, k: k}
 		cls, _ := lib.Guard(func() error {
@@ -390,12 +500,14 @@ func c13Run(rc *wire.ReadContext, ops []byte, k0 int) []c13Ev {
 					ev.gobbed = g
 				}
 			case 'R':
-				m := &wire.Sample{}
+				m := tg.next()
 				err := rc.ReadMessage(m)
 				ev.cls = c13Class(err)
 				if err == nil {
-					ev.msg = m
+					ev.msg = tg.keep(m)
 					k++
+				} else {
+					ev.detail = err.Error()
 				}
 			}
 			return nil
@@ -419,8 +531,9 @@ func c13Run(rc *wire.ReadContext, ops []byte, k0 int) []c13Ev {
 // `pre` messages first, the way patcher.New reads the containers), resumed from the
 // serialized checkpoint; reads up to limit messages (-1: until the first failure) and
 // reports the class of the terminating read.
-func c13ReadTail(raw []byte, gobbed []byte, pre int, limit int) (msgs []*wire.Sample, cls string, detail string) {
+func c13ReadTail(raw []byte, gobbed []byte, pre int, limit int, mode int) (msgs []*wire.Sample, cls string, detail string) {
 	var rc *wire.ReadContext
+	tg := &c13Target{mode: mode}
 	cls, detail = lib.Guard(func() error {
 		ck, err := c13Ungob(gobbed)
 		if err != nil {
@@ -431,7 +544,7 @@ func c13ReadTail(raw []byte, gobbed []byte, pre int, limit int) (msgs []*wire.Sa
 			return err
 		}
 		for i := 0; i < pre; i++ {
-			if err := rc.ReadMessage(&wire.Sample{}); err != nil {
+			if err := rc.ReadMessage(tg.next()); err != nil {
 				return fmt.Errorf("pre-read %d: %v", i, err)
 			}
 		}
@@ -443,13 +556,13 @@ func c13ReadTail(raw []byte, gobbed []byte, pre int, limit int) (msgs []*wire.Sa
 	end := "limit"
 	cls, detail = lib.Guard(func() error {
 		for limit < 0 || len(msgs) < limit {
-			m := &wire.Sample{}
+			m := tg.next()
 			if err := rc.ReadMessage(m); err != nil {
 				end = c13Class(err)
 				detail = err.Error()
 				return nil
 			}
-			msgs = append(msgs, m)
+			msgs = append(msgs, tg.keep(m))
 		}
 		return nil
 	})
@@ -487,7 +600,7 @@ func c13Judge(st *c13Stream, evs []c13Ev, r *lib.Rng, fullBudget int64, stats *c
 			}
 			if k < n {
 				if ev.cls != "ok" {
-					return fmt.Sprintf("message %d of %d: ReadMessage failed (%s)", k, n, ev.cls)
+					return fmt.Sprintf("message %d of %d (body of %d bytes): ReadMessage failed (%s): %s", k, n, len(st.bodies[k]), ev.cls, ev.detail)
 				}
 				k++
 			} else if ev.cls != "eof" {
@@ -528,7 +641,7 @@ func c13Judge(st *c13Stream, evs []c13Ev, r *lib.Rng, fullBudget int64, stats *c
 	for _, ev := range evs {
 		if ev.op == 'R' && ev.msg != nil {
 			if !c13Equal(ev.msg, st.msgs[k]) {
-				return fmt.Sprintf("message %d read back differently (data %d bytes vs %d written, number %d vs %d)", k, len(ev.msg.Data), len(st.msgs[k].Data), ev.msg.Number, st.msgs[k].Number)
+				return fmt.Sprintf("message %d read back differently: %s", k, c13Diff(ev.msg, st.msgs[k]))
 			}
 			k++
 		}
@@ -565,7 +678,9 @@ func c13Judge(st *c13Stream, evs []c13Ev, r *lib.Rng, fullBudget int64, stats *c
 				pre = n
 			}
 		}
-		got, end, detail := c13ReadTail(st.raw, p.gobbed, pre, limit)
+		mode := c13ModeMix[r.Intn(len(c13ModeMix))]
+		got, end, detail := c13ReadTail(st.raw, p.gobbed, pre, limit, mode)
+		detail = "[" + c13ModeName[mode] + " message struct] " + detail
 		stats.resumes++
 		want := st.msgs[p.k:]
 		if limit >= 0 && len(want) > limit {
@@ -581,7 +696,7 @@ func c13Judge(st *c13Stream, evs []c13Ev, r *lib.Rng, fullBudget int64, stats *c
 		}
 		for i := range want {
 			if !c13Equal(got[i], want[i]) {
-				return fmt.Sprintf("resumed after %d messages (pre-read %d): message %d after the checkpoint differs (data %d bytes, number %d; want %d bytes, number %d)", p.k, pre, i, len(got[i].Data), got[i].Number, len(want[i].Data), want[i].Number)
+				return fmt.Sprintf("resumed after %d messages (pre-read %d): message %d after the checkpoint differs: %s %s", p.k, pre, i, c13Diff(got[i], want[i]), detail)
 			}
 		}
 	}
@@ -604,9 +719,11 @@ func c13Chain(st *c13Stream, r *lib.Rng, stats *c13Stats) (string, int) {
 	}
 	k := 0
 	gens := 0
+	mode := c13ModeMix[r.Intn(len(c13ModeMix))]
 	for steps := 0; steps < 4*n+8; steps++ {
 		var crash []byte
 		res := ""
+		tg := &c13Target{mode: mode} // every generation is a new process
 		cls, msg := lib.Guard(func() error {
 			for {
 				rc.WantSave()
@@ -625,7 +742,7 @@ func c13Chain(st *c13Stream, r *lib.Rng, stats *c13Stats) (string, int) {
 						return nil
 					}
 				}
-				m := &wire.Sample{}
+				m := tg.next()
 				err := rc.ReadMessage(m)
 				if k == n {
 					if c13Class(err) != "eof" {
@@ -638,7 +755,7 @@ func c13Chain(st *c13Stream, r *lib.Rng, stats *c13Stats) (string, int) {
 					return nil
 				}
 				if !c13Equal(m, st.msgs[k]) {
-					res = fmt.Sprintf("generation %d: message %d differs (data %d bytes, number %d; want %d bytes, number %d)", gens, k, len(m.Data), m.Number, len(st.msgs[k].Data), st.msgs[k].Number)
+					res = fmt.Sprintf("generation %d: message %d differs: %s [%s message struct]", gens, k, c13Diff(m, st.msgs[k]), c13ModeName[mode])
 					return nil
 				}
 				k++
@@ -679,6 +796,12 @@ type c13Seq struct {
 	name  string
 	sizes []int
 	kind  int // fill kind
+	// fixed: a save is requested at every boundary under every codec of the shared list;
+	// modes: the case is run once per way of handing a message struct to ReadMessage;
+	// codecs: 0 every codec, 1 uncompressed only (the bulk of the sequence is too heavy for the
+	// slow decoders in a quick run), 2 the shared list only
+	fixed, modes bool
+	codecs       int
 }
 
 func c13Seqs(c *Ctx, r *lib.Rng) []c13Seq {
@@ -688,9 +811,33 @@ func c13Seqs(c *Ctx, r *lib.Rng) []c13Seq {
 		maxMsgs = 400
 	}
 	ladder := append(append(append([]int(nil), c13Small...), c13Mid...), c13Big...)
-	out = append(out, c13Seq{"ladder", ladder, 1})
+	out = append(out, c13Seq{name: "ladder", sizes: ladder, kind: 1, fixed: true})
 	// big then small: the regrown buffer is reused for later, smaller messages
-	out = append(out, c13Seq{"big-then-small", []int{32769, 0, 2, 127, 1 << 20, 128, 0, 4<<20 + 1, 3, 16384, 65537, 2, 32768, 0}, 1})
+	out = append(out, c13Seq{name: "big-then-small", sizes: []int{32769, 0, 2, 127, 1 << 20, 128, 0, 4<<20 + 1, 3, 16384, 65537, 2, 32768, 0}, kind: 1, fixed: true})
+	// empty messages (a 0-byte body: every field at its default) between, after and before
+	// non-empty ones, read into every kind of message struct
+	out = append(out, c13Seq{name: "empties", sizes: []int{5, 0, 300, 0, 0, 2, 40000, 0, 127, 3, 0}, kind: 1, fixed: true, modes: true})
+	// beyond 4 MiB: the whole list uncompressed (thorough: under every codec of the shared list);
+	// under every codec of the shared list a random size above 4 MiB,
+	// the first growth step above it and small messages after them
+	huge := append([]int(nil), c13Huge...)
+	if c13Deep(c) {
+		huge = append(huge, c13HugeDeep...)
+	}
+	var hs []int
+	for i, h := range huge {
+		hs = append(hs, h)
+		if i%2 == 1 {
+			hs = append(hs, []int{0, 2, 3, 127}[(i/2)%4])
+		}
+	}
+	hs = append(hs, r.Range(4<<20+2, 16<<20), 0)
+	hugeCodecs := 1
+	if c13Deep(c) {
+		hugeCodecs = 2
+	}
+	out = append(out, c13Seq{name: "huge", sizes: hs, kind: 0, fixed: true, codecs: hugeCodecs})
+	out = append(out, c13Seq{name: "huge-codecs", sizes: []int{r.Range(4<<20+2, 6<<20), 0, 8<<20 + 1, 2}, kind: 0, fixed: true, codecs: 2})
 	// growth steps of the reusable buffer, up and down
 	var steps []int
 	top := 18
@@ -703,13 +850,13 @@ func c13Seqs(c *Ctx, r *lib.Rng) []c13Seq {
 	for p := top; p >= 15; p-- {
 		steps = append(steps, 1<<uint(p)+1, 1<<uint(p))
 	}
-	out = append(out, c13Seq{"growth-steps", steps, 0})
+	out = append(out, c13Seq{name: "growth-steps", sizes: steps, kind: 0, fixed: true})
 	// many small messages
 	var small []int
 	for i := 0; i < maxMsgs; i++ {
 		small = append(small, []int{0, 2, 3, 5, 60, 127, 128, 129, 300}[r.Intn(9)])
 	}
-	out = append(out, c13Seq{"many-small", small, 1})
+	out = append(out, c13Seq{name: "many-small", sizes: small, kind: 1, fixed: true})
 	// block sized messages of incompressible data: decompressor checkpoints fall everywhere
 	var blocks []int
 	nb := 24
@@ -719,8 +866,8 @@ func c13Seqs(c *Ctx, r *lib.Rng) []c13Seq {
 	for i := 0; i < nb; i++ {
 		blocks = append(blocks, []int{r.Range(1000, 20000), r.Range(20000, 70000), r.Range(100000, 300000), c13Small[r.Intn(len(c13Small))], c13Mid[r.Intn(len(c13Mid))]}[r.Intn(5)])
 	}
-	out = append(out, c13Seq{"blocks-random", blocks, 1})
-	out = append(out, c13Seq{"blocks-text", blocks, 2})
+	out = append(out, c13Seq{name: "blocks-random", sizes: blocks, kind: 1, fixed: true})
+	out = append(out, c13Seq{name: "blocks-text", sizes: blocks, kind: 2, fixed: true})
 	extra := c13N(c, 2, 10)
 	for i := 0; i < extra; i++ {
 		var sz []int
@@ -751,7 +898,7 @@ func c13Seqs(c *Ctx, r *lib.Rng) []c13Seq {
 			sz = append(sz, s)
 			budget -= s
 		}
-		out = append(out, c13Seq{"mixed", sz, r.Intn(3)})
+		out = append(out, c13Seq{name: "mixed", sizes: sz, kind: r.Intn(3)})
 	}
 	return out
 }
@@ -787,11 +934,34 @@ func runC13(c *Ctx) error {
 
 // ---------- oracle-only streams: all sizes, all codecs ----------
 
-func c13StreamCase(c *Ctx, cr *lib.Rng, prefix string, sq c13Seq, msgs []*wire.Sample, comp lib.Compression, sched string, fullBudget int64, chain bool) {
+// c13How: the caller side of a case - which struct ReadMessage is given, whether the writer's
+// caller refills one struct and one buffer
+type c13How struct {
+	read int
+	pen  bool
+}
+
+func (h c13How) String() string {
+	if h.pen {
+		return c13ModeName[h.read] + "+pen"
+	}
+	return c13ModeName[h.read]
+}
+
+// c13HowOf: the j-th combination, reuse first
+func c13HowOf(j int) c13How {
+	if j < 0 {
+		j = -j
+	}
+	return c13How{read: c13ModeMix[j%len(c13ModeMix)], pen: j%2 == 0}
+}
+
+func c13StreamCase(c *Ctx, cr *lib.Rng, prefix string, sq c13Seq, msgs []*wire.Sample, comp lib.Compression, sched string, fullBudget int64, chain bool, how c13How) {
 	t0 := time.Now()
-	st, err := c13Build(comp, msgs)
-	input := map[string]interface{}{"seq": sq.name, "sizes": sizesSummary(sq.sizes), "fill": sq.kind, "codec": comp.String(), "sched": sched}
-	class := fmt.Sprintf("%s/%s/%s/%s", prefix, sq.name, comp.String(), sched)
+	st, err := c13Build(comp, msgs, how.pen)
+	input := map[string]interface{}{"seq": sq.name, "sizes": sizesSummary(sq.sizes), "fill": sq.kind, "codec": comp.String(), "sched": sched,
+		"readInto": c13ModeName[how.read] + " message struct", "writerReusesStructAndBuffer": how.pen}
+	class := fmt.Sprintf("%s/%s/%s/%s/%s", prefix, sq.name, comp.String(), sched, how)
 	if err != nil {
 		c.Out.Emit(&lib.Case{Class: class, Input: input, Oracle: err.Error()})
 		return
@@ -810,7 +980,7 @@ func c13StreamCase(c *Ctx, cr *lib.Rng, prefix string, sq c13Seq, msgs []*wire.S
 		oracle = "opening the stream: " + cls + " " + msg
 	} else {
 		ops := c13Ops(cr, len(msgs), sched)
-		evs := c13Run(rc, ops, 0)
+		evs := c13Run(rc, ops, 0, how.read)
 		oracle = c13Judge(st, evs, cr, fullBudget, stats)
 	}
 	chainGens := 0
@@ -836,8 +1006,8 @@ func c13Corpus(c *Ctx) {
 	for _, q := range []int32{0, 1, 6, 9} {
 		comp := lib.Compression{Algo: pwr.CompressionAlgorithm_GZIP, Quality: q}
 		for _, sizes := range [][]int{{70000, 0}, {0}, {20000, 2, 131073, 0, 65536}, {100, 32767}} {
-			sq := c13Seq{"corpus", sizes, 0}
-			c13StreamCase(c, r.Fork(), "corpus", sq, c13Msgs(r.Fork(), sq), comp, "all", 1<<40, true)
+			sq := c13Seq{name: "corpus", sizes: sizes}
+			c13StreamCase(c, r.Fork(), "corpus", sq, c13Msgs(r.Fork(), sq), comp, "all", 1<<40, true, c13HowOf(int(q)+len(sizes)))
 		}
 	}
 }
@@ -856,18 +1026,28 @@ func c13Streams(c *Ctx) error {
 		for ci, comp := range codecs {
 			cr := r.Fork()
 			// the extra qualities get a share of the sequences only
-			if ci >= len(lib.Compressions) && (si+ci)%3 != 0 {
+			if ci >= len(lib.Compressions) && ((si+ci)%3 != 0 || sq.codecs == 2) {
+				continue
+			}
+			if sq.codecs == 1 && comp.Algo != pwr.CompressionAlgorithm_NONE {
 				continue
 			}
 			sched := c13Scheds[(si+ci+int(c.Seed))%len(c13Scheds)]
-			if si < 6 && ci < len(lib.Compressions) {
+			if sq.fixed && ci < len(lib.Compressions) {
 				sched = "all" // the fixed sequences: a save requested at every boundary, for every codec
 			}
 			b := fullBudget
 			if comp.Algo == pwr.CompressionAlgorithm_BROTLI {
 				b /= 2 // the pure Go brotli decoder is slow
 			}
-			c13StreamCase(c, cr, "stream", sq, msgs, comp, sched, b, sched == "all" || cr.Chance(1, 3))
+			j := si + ci + int(c.Seed)
+			hows := []c13How{c13HowOf(j)}
+			if sq.modes {
+				hows = []c13How{{c13Reuse, j%2 == 0}, {c13Dirty, j%2 == 1}, {c13Fresh, j%2 == 0}}
+			}
+			for _, how := range hows {
+				c13StreamCase(c, cr, "stream", sq, msgs, comp, sched, b, sched == "all" || cr.Chance(1, 3), how)
+			}
 		}
 	}
 	return nil
@@ -938,11 +1118,13 @@ func c13Ckpt(c *Ctx) error {
 			}
 		}
 		kind := 0 // RLE friendly bodies keep the case file small
-		msgs := c13Msgs(cr, c13Seq{"ckpt", sizes, kind})
-		st, err := c13Build(comp, msgs)
+		msgs := c13Msgs(cr, c13Seq{name: "ckpt", sizes: sizes, kind: kind})
+		how := c13HowOf(i/2 + int(c.Seed))
+		st, err := c13Build(comp, msgs, how.pen)
 		sched := c13Scheds[cr.Intn(len(c13Scheds))]
-		input := map[string]interface{}{"sizes": sizes, "codec": comp.String(), "sched": sched}
-		class := fmt.Sprintf("ckpt/%s/%s/shape%d", comp.String(), sched, shape)
+		input := map[string]interface{}{"sizes": sizes, "codec": comp.String(), "sched": sched,
+			"readInto": c13ModeName[how.read] + " message struct", "writerReusesStructAndBuffer": how.pen}
+		class := fmt.Sprintf("ckpt/%s/%s/shape%d/%s", comp.String(), sched, shape, how)
 		if err != nil {
 			c.Out.Emit(&lib.Case{Class: class, Input: input, Oracle: err.Error()})
 			continue
@@ -959,7 +1141,7 @@ func c13Ckpt(c *Ctx) error {
 			continue
 		}
 		cap0 := rc.VerifBufCap()
-		evs := c13Run(rc, ops, 0)
+		evs := c13Run(rc, ops, 0, how.read)
 		stats := &c13Stats{}
 		oracle := c13Judge(st, evs, cr, 1<<40, stats)
 
@@ -1011,7 +1193,7 @@ func c13Ckpt(c *Ctx) error {
 				oracle = fmt.Sprintf("source restarted at %d, after its checkpoint's offset %d", restart, ev.ck.SourceCheckpoint.Offset)
 			}
 			scOffAt[ev.ck.SourceCheckpoint.Offset] = restart
-			got, end, _ := c13ReadTail(st.raw, ev.gobbed, 0, -1)
+			got, end, _ := c13ReadTail(st.raw, ev.gobbed, 0, -1, how.read)
 			var fps []string
 			for _, m := range got {
 				b, _ := c13Body(m)
@@ -1100,7 +1282,7 @@ func c13Frames(c *Ctx) error {
 		if i%10 == 9 {
 			sizes = []int{[]int{16383, 16384, 16385, 32768, 32769}[cr.Intn(5)], 0, 2}
 		}
-		msgs := c13Msgs(cr, c13Seq{"frame", sizes, 0})
+		msgs := c13Msgs(cr, c13Seq{name: "frame", sizes: sizes})
 		var bodies [][]byte
 		for _, m := range msgs {
 			b, err := c13Body(m)
@@ -1111,6 +1293,8 @@ func c13Frames(c *Ctx) error {
 		}
 		var buf bytes.Buffer
 		oracle := ""
+		how := c13HowOf(i + int(c.Seed))
+		pen := &c13Pen{reuse: how.pen}
 		cls, msg := lib.Guard(func() error {
 			w := wire.NewWriteContext(&buf)
 			if withMagic {
@@ -1119,7 +1303,7 @@ func c13Frames(c *Ctx) error {
 				}
 			}
 			for _, m := range msgs {
-				if err := w.WriteMessage(m); err != nil {
+				if err := pen.write(w, m); err != nil {
 					return err
 				}
 			}
@@ -1168,6 +1352,7 @@ func c13Frames(c *Ctx) error {
 			src := seeksource.FromBytes(stream[:p])
 			var got []*wire.Sample
 			end := "ok"
+			tg := &c13Target{mode: how.read}
 			cls, msg := lib.Guard(func() error {
 				if _, err := src.Resume(nil); err != nil {
 					return err
@@ -1180,12 +1365,12 @@ func c13Frames(c *Ctx) error {
 					}
 				}
 				for {
-					m := &wire.Sample{}
+					m := tg.next()
 					if err := rc.ReadMessage(m); err != nil {
 						end = c13Class(err)
 						return nil
 					}
-					got = append(got, m)
+					got = append(got, tg.keep(m))
 					if len(got) > len(msgs)+2 {
 						end = "error"
 						return nil
@@ -1203,7 +1388,7 @@ func c13Frames(c *Ctx) error {
 				}
 				for j := 0; oracle == "" && j < len(got); j++ {
 					if !c13Equal(got[j], msgs[j]) {
-						oracle = fmt.Sprintf("cut %d of %d: message %d read back differently", p, len(stream), j)
+						oracle = fmt.Sprintf("cut %d of %d: message %d read back differently (into a %s message struct)", p, len(stream), j, c13ModeName[how.read])
 					}
 				}
 				if oracle == "" && end == "panic" {
@@ -1227,10 +1412,11 @@ func c13Frames(c *Ctx) error {
 		}
 		c.Out.Emit(&lib.Case{Group: "frame", Class: fmt.Sprintf("frame/magic=%v/wrong=%v/n%d", withMagic, expect != magic, len(msgs)),
 			Nontrivial: len(msgs) >= 2 && nTrunc > 0,
-			Input:      map[string]interface{}{"magic": magic, "expect": expect, "withMagic": withMagic, "sizes": sizes},
-			Obs:        map[string]interface{}{"streamLen": len(stream), "cuts": len(cuts)},
-			Oracle:     oracle,
-			Coq:        fmt.Sprintf("mk_frame $ID%%N %s %s %s %s", mg, coqRleBodies(bodies), coqRle(stream), lib.CoqList(cutS))})
+			Input: map[string]interface{}{"magic": magic, "expect": expect, "withMagic": withMagic, "sizes": sizes,
+				"readInto": c13ModeName[how.read] + " message struct", "writerReusesStructAndBuffer": how.pen},
+			Obs:    map[string]interface{}{"streamLen": len(stream), "cuts": len(cuts)},
+			Oracle: oracle,
+			Coq:    fmt.Sprintf("mk_frame $ID%%N %s %s %s %s", mg, coqRleBodies(bodies), coqRle(stream), lib.CoqList(cutS))})
 	}
 	return nil
 }
